@@ -508,11 +508,12 @@ impl ContinuityStore {
                     if !tail.events.is_empty() {
                         // Prefer the full continuity sidecar's head seq so `from_seq` matches the
                         // truth stream even when the mr sidecar omits non-message events.
-                        let head_seq = self
+                        let full_head_seq = self
                             .stream_cache
                             .try_read_last_seq(continuity_id)
                             .ok()
-                            .flatten()
+                            .flatten();
+                        let head_seq = full_head_seq
                             .or_else(|| tail.events.last().map(|event| event.seq))
                             .unwrap_or_default();
 
@@ -521,6 +522,16 @@ impl ContinuityStore {
                             if matches!(event.kind, EventKind::ContinuityMessageAppended { .. }) {
                                 message_events.push((event.seq, event.id.clone()));
                             }
+                        }
+
+                        // The mr sidecar omits non-message frames: when the anchor is the newest
+                        // message the cut point is the head of the truth stream, which only the
+                        // full sidecar knows. Without it, fall back to the slower paths.
+                        let cut_is_head = message_events
+                            .last()
+                            .is_some_and(|(_, id)| id == anchor_message_id);
+                        if cut_is_head && full_head_seq.is_none() {
+                            break;
                         }
 
                         if let Some((message_seq, from_seq)) =
